@@ -24,8 +24,9 @@ def engine_index_of_calls(events, opidx):
 @prop("C12", "fault_enumeration")
 def c12(run, tier):
     run.rule = ("crash points: for every program of the propositional family, every root goal and every engine event index k, TLC explores the history "
-                "<<solve(g) whose callback panics instead of the k-th engine event, solve(g')>> (thorough: also <<solve, panic, solve>>) and checks "
-                "ResultsCorrectUnlessLost; the real SLG engine is run with a panic injected into the n-th database callback for the callbacks n that "
+                "<<solve(g) whose callback panics instead of the k-th engine event, solve(g')>> (thorough: also <<solve, panic, solve>>) at the engine steps "
+                "that call into the database (table construction, unification of an answer) and checks PanicSafe (every later solve answers like a fresh "
+                "solver) and NothingLost (no strand is lost); every database callback of a clean real run must fall on such a step; the real SLG engine is run with a panic injected into the n-th database callback for the callbacks n that "
                 "fall before event k in a clean run: the panicking call must report the panic and every later call must give the answer and "
                 "take exactly the number of engine steps the specification computes (executions validated against SLG.tla incl. Panic and "
                 "DropState); the recursive solver (cache on/off) is run with the panic injected at every callback n and later answers are compared "
@@ -35,8 +36,8 @@ def c12(run, tier):
     big = tier == "thorough"
     if big: f, byid = fam(run, tier, None, None, (2, 2, 2, True, True), 400)
     else:   f, byid = fam(run, tier, (2, 2, 2, True, True), 24, None)
-    recs = gc.model_check(run, f, gc.goals_atoms_and_not, {"MaxOps": 3 if big else 2, "Kinds": ["solve", "panic"], "MaxPanic": 70, "PanicPlans": True,
-                                                          "Invariants": ["ResultsCorrectUnlessLost", "BoundedWork"]}, "C12", timeout=3000)
+    recs = gc.model_check(run, f, gc.goals_atoms_and_not, {"MaxOps": 3 if big else 2, "Kinds": ["solve", "panic"], "MaxPanic": 130, "PanicPlans": True,
+                                                          "Invariants": ["PanicSafe", "NothingLost", "BoundedWork"]}, "C12", timeout=3000)
     # keep the behaviours in which the panic really fired
     recs = [r for r in recs if any(x["kind"] == "panic" and x["class"] == "Panic" for x in r["results"])]
     run.extra["crash_behaviours_in_model"] = len(recs)
@@ -58,6 +59,18 @@ def c12(run, tier):
             if o.get("error") or any(y.get("class") == "Panic" for y in o["results"]):
                 calls[k] = None; continue
             calls[k] = engine_index_of_calls(o["events"], len(clean[k][1]))
+        # every database callback of the real engine must fall on an engine step at which the specification lets a callback panic
+        if sname == "slg":
+            model_ks = {}
+            for r in recs:
+                i = next(j for j, x in enumerate(r["results"]) if x["kind"] == "panic")
+                model_ks.setdefault(keyof(r, i), set()).add(r["results"][i]["k"])
+            for k in keys:
+                if not calls.get(k): continue
+                missing = sorted({kk for (_, kk) in calls[k]} - model_ks.get(k, set()))
+                if missing:
+                    run.violation({"solver": "slg", "layer": "spec-coverage", "what": "a database callback happens at an engine step where the specification admits no panic"},
+                                  {"program": ground.render(byid[clean[k][0]], 4), "goals": clean[k][1], "steps": missing}); break
         # ---- pass 2: inject
         jobs, meta = [], []
         for r in recs:
